@@ -10,13 +10,14 @@ CORRESPONDENCES = ["Polygon::edge_vertices(name) on an outline of n vertices = D
                    "Data::new + Model::try_from on a damaged generated project = Pipeline.verdict (converted / rejected / crashed)"]
 SPEC_FAMILIES = (CORRESPONDENCES[0], CORRESPONDENCES[1])
 RULE = ("fault enumeration on the implementation: every shipped project file (12 .ctehexml, 56 .cte, 3 KyGananciasSolares.txt, 6 NewBDL_O.tbl) "
-        "x a seeded 1-in-stride slice of its lines (quick: stride 160, thorough: stride 4; --stride 1 is exhaustive) x 10 single edits (delete, "
-        "duplicate, swap with next, remove block/element, number -> text / 1e39 / 123456789012 / -7, rename a quoted reference, truncate here); "
-        "each damaged text is parsed and converted in a watched worker process (20 s watchdog): outcome ok / err / panic(site, message class) / "
+        "x a seeded 1-in-stride slice of its lines (quick: stride 160, thorough: stride 8; result files 20 times denser; --stride 1 is exhaustive) x 14 single "
+        "edits (delete, duplicate, swap with next, remove block/element, number -> text / 1e39 / 123456789012 / -7 / 0 / 99, rename a quoted reference, "
+        "truncate here / after the quote that opens a value / in mid line); each damaged text is parsed and converted in a watched worker process (20 s "
+        "watchdog, confirmed alone with 3 minutes); a damaged result file is converted with its project through collect_hulc_data(dir, true, true): outcome ok / err / panic(site, message class) / "
         "timeout / abort; plus vertex names of every shape (fixed list + random strings over V,digits,+,-,blank,.) x outlines of 0..5 vertices "
         "against the model; non-trivial = the edit applies to the line; distinct = distinct (file, line, edit)")
 ASSUMPTIONS = ["a panic is caught by catch_unwind in the worker (the harness builds /repo with panic=unwind; the shipped release profile aborts instead)",
-               "a damaged file that needs more than 20 s is a hang (intact files take < 1 s)"]
+               "a damaged file that needs more than 20 s, and again more than 3 minutes when run alone, is a hang (intact files take < 1 s)"]
 TRUSTED = ["modelled: the BDL path of a project — Bdl.buildBlocks (block parser), BdlData.dataNew (typed elements, Data::new), Conv.convert "
            "(references of Model::try_from), Damage.edgeVertices, Schedules.periodLengths — proved never to crash (pipeline_never_crashes) and compared "
            "with the implementation's verdict on damaged generated projects; the XML reader, the systems sections, the catalogue, geometry values and "
